@@ -937,7 +937,8 @@ func (v Value) toReflectValue(typ reflect.Type) (reflect.Value, error) {
 				}
 				return exported.Convert(typ), nil
 			}
-			return reflect.Value{}, fmt.Errorf("TypeError: could not convert %v to reflect.Type: %v", exported, typ)
+			// (the type, not the value: an exported object that contains itself cannot be printed)
+			return reflect.Value{}, fmt.Errorf("TypeError: could not convert %T to reflect.Type: %v", v.export(), typ)
 		case valueEmpty, valueResult, valueReference:
 			// These are invalid, and should panic
 		default:
